@@ -727,6 +727,39 @@ func main() {
 	})
 
 	// lower dimensions: multi-point (count weighted) and line strings (length weighted)
+	// a bound is measured as the ring of its four corners - also when its corners are the wrong way round (Pad with a
+	// negative amount, a literal with swapped corners) or coincide
+	bvals := []float64{-2, 0, 1, 3}
+	r.Explore("bound-measures", "every bound with corner coordinates in {-2,0,1,3} (256: regular, degenerate, inverted on x / y / both), alone and as a collection member: Length = the four sides of ToRing() by the check's own distance, Area and CentroidArea = those of ToRing()", mc.Opts{MaxDev: -1}, func(c *mc.Ctx) {
+		b := orb.Bound{Min: orb.Point{bvals[c.Choose(4)], bvals[c.Choose(4)]}, Max: orb.Point{bvals[c.Choose(4)], bvals[c.Choose(4)]}}
+		ring := b.ToRing()
+		want := 0.0
+		for i := 0; i+1 < len(ring); i++ {
+			want += math.Hypot(ring[i+1][0]-ring[i][0], ring[i+1][1]-ring[i][1])
+		}
+		if want != 2*(math.Abs(b.Max[0]-b.Min[0])+math.Abs(b.Max[1]-b.Min[1])) || len(ring) != 5 {
+			c.Failf("bound-ring", "ToRing(%v) = %v is not the closed ring of the four corners", b, ring)
+		}
+		if l := planar.Length(b); l != want {
+			c.Failf("bound-length", "Length(%v) = %v, the sides of its ring %v add up to %v", b, l, ring, want)
+		}
+		if l := planar.Length(orb.Collection{b, orb.Point{9, 9}}); l != want {
+			c.Failf("bound-length", "Length(Collection{%v, point}) = %v, want %v", b, l, want)
+		}
+		if a, ra := planar.Area(b), planar.Area(ring); a != ra {
+			c.Failf("bound-area", "Area(%v) = %v, Area of its ring %v = %v", b, a, ring, ra)
+		}
+		cb, ab := planar.CentroidArea(b)
+		cr, ar := planar.CentroidArea(ring)
+		if ab != ar || (cb != cr && !(cb != cb && cr != cr)) {
+			if !(math.IsNaN(cb[0]) && math.IsNaN(cr[0])) {
+				c.Failf("bound-centroid", "CentroidArea(%v) = %v, %v; of its ring %v: %v, %v", b, cb, ab, ring, cr, ar)
+			}
+		}
+		if b.Min[0] > b.Max[0] || b.Min[1] > b.Max[1] {
+			c.NonTrivial()
+		}
+	})
 	r.Explore("points-lines", "multi-points of 1..3 lattice points and line strings of 2..3 lattice points (axis-aligned / 3-4-5 steps so lengths are exact): centroid is the count- / length-weighted mean; collections of only such members", mc.Opts{MaxDev: -1}, func(c *mc.Ctx) {
 		t := c.Choose(len(transforms))
 		scale := float64(transforms[t].scale)
